@@ -83,3 +83,11 @@ Print Assumptions C09_first_fulfilled_part_under_every_schedule.
 Theorem C09_sequential_model_is_eval_ahb : forall c a, eval_ahb c a = eval_ahb_gen (rc_evaluation c) (fc_of_cer c) a.
 Proof. exact eval_ahb_is_gen. Qed.
 Print Assumptions C09_sequential_model_is_eval_ahb.
+
+(* ---- tie T for the selection loop: AhbExpressionTransformer._ahb_expression_async executed on every list of 1..4 evaluated parts (Gen/Gen_select.v)
+   reports the part `select` reports, with the same outcome and conditional flag (bounded domain: a regenerated regression tie; C09_select is the
+   unbounded statement) *)
+From Ahb Require Import Gen.Gen_select Proofs.C09_gen.
+Theorem C09_selection_loop_is_the_regenerated_table : forallb select_row_ok select_rows = true /\ length select_rows = 340.
+Proof. exact (conj select_rows_ok select_rows_complete). Qed.
+Print Assumptions C09_selection_loop_is_the_regenerated_table.
